@@ -793,3 +793,9 @@ Definition C23_next_refuted_stmt : Prop :=
 Definition C23_next_partial_stmt : Prop :=
   forall t s, wf_layout t s -> validate t s = Some [] ->
   forall n, In n (nexts t) -> (forall m, In m (nexts t) -> fst m = fst n -> snd n <= snd m) -> next_scoped t n.
+
+(* a tree (with its instruction spans) that the validator accepts although it is not well scoped *)
+Definition refutes_scoping (w : instr * stree) : Prop :=
+  wf_layout (fst w) (snd w) /\ validate (fst w) (snd w) = Some [] /\ ~ well_scoped (fst w).
+Definition refutes_next (w : instr * stree) (n : string * pos) : Prop :=
+  wf_layout (fst w) (snd w) /\ validate (fst w) (snd w) = Some [] /\ In n (nexts (fst w)) /\ ~ next_scoped (fst w) n.
